@@ -200,6 +200,8 @@ def _leaf_ops(path, f, N, full):
     for s, e, st, ab in [(0, N, 1, False), (0, N, 2, False), (1, N + 1, 1, True), (0, N, 1, True),
                          (N - 1, -1, -1, False), (N - 1, -1, -2, False), (N - 1, -1, -1, True)]:     # downwards too
         out.append(("rangeref", path, s, e, st, ab))
+    # dense reference co-iteration in which the same fiber object occurs twice
+    out.append(("corangeref", path, 0, N))
     if f.coords and max(f.coords) < N:
         out.append(("updc", path, "inc"))
     if f.coords and max(f.coords) <= N - 1:
@@ -395,6 +397,9 @@ def _apply(S, op):
         for i, _ in enumerate(f.iterRangeShapeRef(op[2], op[3], op[4])):
             if op[5] and i == 0:
                 break
+    elif k == "corangeref":
+        for _ in Fiber.coiterRangeShapeRef([f, f], op[2], op[3]):
+            pass
     elif k == "updc":
         f.updateCoords(CFN[op[2]](N))
     elif k == "updp":
